@@ -20,6 +20,8 @@ package socket
 //@   ensures [index_big_endian] header[8] == byteof(idx, 3) && header[9] == byteof(idx, 2) && header[10] == byteof(idx, 1) && header[11] == byteof(idx, 0)
 //@   ensures [length_big_endian_with_marker] header[4] == byteof(length, 3) + 128 && header[5] == byteof(length, 2) &&
 //@       header[6] == byteof(length, 1) && header[7] == byteof(length, 0)
+//@   ensures [checksum_is_32_bit] 0 <= crc8(header[4], header[5], header[6], header[7], header[8], header[9], header[10], header[11]) &&
+//@       crc8(header[4], header[5], header[6], header[7], header[8], header[9], header[10], header[11]) <= 4294967295
 //@   ensures [checksum_big_endian] header[0] == byteof(crc8(header[4], header[5], header[6], header[7], header[8], header[9], header[10], header[11]), 3) &&
 //@       header[1] == byteof(crc8(header[4], header[5], header[6], header[7], header[8], header[9], header[10], header[11]), 2) &&
 //@       header[2] == byteof(crc8(header[4], header[5], header[6], header[7], header[8], header[9], header[10], header[11]), 1) &&
@@ -57,3 +59,114 @@ package socket
 //@   (define-fun plen () Int (+ (* (mod h4 128) 16777216) (* h5 65536) (* h6 256) h7))
 //@   (define-fun pidx () Int (+ (* (mod h8 128) 16777216) (* h9 65536) (* h10 256) h11))
 //@   (assert (not (and crcok (= plen length) (= pidx index) (= (< h8 128) (= e 0)))))
+
+// ---- client side: one frame out, one frame in ---------------------------------
+
+// conn.send: the frame on the wire is header(len(body), index) followed by exactly the body.
+//@ func (*conn).send
+//@   prop C12 C09
+//@   nopanic
+//@   requires c != nil && len(request.Body) < 2147483648 && 0 <= request.Index && request.Index < 2147483648
+//@   requires ghost.wpos[ival(c.Conn)] >= 0
+//@   modifies ghost.wpos[ival(c.Conn)], ghost.wstream[ival(c.Conn)]
+//@   let w = ival(c.Conn)
+//@   let p0 = ghost.wpos[ival(c.Conn)]
+//@   ensures [frame_length] err == nil ==> ghost.wpos[w] == p0 + 12 + len(request.Body)
+//@   ensures [header_carries_body_length] err == nil ==> ghost.wstream[w][p0 + 4] == byteof(len(request.Body), 3) + 128 &&
+//@       ghost.wstream[w][p0 + 5] == byteof(len(request.Body), 2) && ghost.wstream[w][p0 + 6] == byteof(len(request.Body), 1) &&
+//@       ghost.wstream[w][p0 + 7] == byteof(len(request.Body), 0)
+//@   ensures [header_carries_index] err == nil ==> ghost.wstream[w][p0 + 8] == byteof(request.Index, 3) &&
+//@       ghost.wstream[w][p0 + 9] == byteof(request.Index, 2) && ghost.wstream[w][p0 + 10] == byteof(request.Index, 1) &&
+//@       ghost.wstream[w][p0 + 11] == byteof(request.Index, 0)
+//@   ensures [header_carries_its_checksum] err == nil ==>
+//@       ghost.wstream[w][p0] * 16777216 + ghost.wstream[w][p0 + 1] * 65536 + ghost.wstream[w][p0 + 2] * 256 + ghost.wstream[w][p0 + 3] ==
+//@       crc8(ghost.wstream[w][p0 + 4], ghost.wstream[w][p0 + 5], ghost.wstream[w][p0 + 6], ghost.wstream[w][p0 + 7],
+//@            ghost.wstream[w][p0 + 8], ghost.wstream[w][p0 + 9], ghost.wstream[w][p0 + 10], ghost.wstream[w][p0 + 11])
+//@   ensures [body_follows_unchanged] err == nil ==> forall(i, 0, len(request.Body), ghost.wstream[w][p0 + 12 + i] == request.Body[i])
+//@   ensures [earlier_bytes_untouched] forall(p, 0, p0, ghost.wstream[w][p] == old(ghost.wstream[ival(c.Conn)][p]))
+
+// ---- server side ------------------------------------------------------------
+//
+// run: the body of every request goroutine (a goroutine root: no panic may
+// escape). Its precondition is what receive must establish before it starts
+// one (checked at the `go` statement and at the worker-pool submission):
+//   C13  the body is within Service.MaxRequestLength
+//   C12  the body is exactly the frame body: completely filled by one read
+//        from the connection, directly after a header with a valid checksum
+//        that announces this length and this index and carries no error bit.
+// It answers under the index it was given, also when the service panics.
+
+//@ func (*Handler).run
+//@   prop C12 C13 C11 C09
+//@   nopanic
+//@   havoc
+//@   modifies @HANDLE, ghost.chansent[queue], ghost.chanlen[*], ghost.chanrecv[*]
+//@   requires h != nil && h.Service != nil
+//@   requires [request_within_limit] len(body) <= h.Service.MaxRequestLength
+//@   requires [body_completely_read] off(body) == 0 && ghost.bufn[arr(body)] == len(body)
+//@   requires [body_follows_its_header] hdr_crcok(ghost.rstream[ghost.bufsrc[arr(body)]], ghost.bufpos[arr(body)] - 12) &&
+//@       hdr_len(ghost.rstream[ghost.bufsrc[arr(body)]], ghost.bufpos[arr(body)] - 12) == len(body) &&
+//@       hdr_idx(ghost.rstream[ghost.bufsrc[arr(body)]], ghost.bufpos[arr(body)] - 12) == index
+//@   stable h.Service
+//@   ensures [handles_exactly_this_request_once] ghost.handled == old(ghost.handled) + 1 && same(ghost.handled_req, body)
+//@   ensures [answers_at_most_once] ghost.chansent[queue] <= old(ghost.chansent[queue]) + 1
+//@   ensures [answers_under_the_request_index] ghost.chansent[queue] == old(ghost.chansent[queue]) + 1 ==> lastsent(queue).Index == index
+//@   ensures [panic_becomes_error_response] ghost.chansent[queue] == old(ghost.chansent[queue]) + 1 && ghost.npanic_handle > old(ghost.npanic_handle) ==>
+//@       lastsent(queue).Error != nil
+//@   ensures [response_is_the_service_response] ghost.chansent[queue] == old(ghost.chansent[queue]) + 1 && ghost.npanic_handle == old(ghost.npanic_handle) ==>
+//@       same(lastsent(queue).Body, ghost.handle_resp) && same(lastsent(queue).Error, ghost.handle_err)
+
+// task: the worker-pool variant of starting run; same precondition.
+//@ func (*Handler).task
+//@   prop C12 C13 C09
+//@   nopanic
+//@   modifies nothing
+//@   requires h != nil && h.Service != nil
+//@   requires [request_within_limit] len(body) <= h.Service.MaxRequestLength
+//@   requires [body_completely_read] off(body) == 0 && ghost.bufn[arr(body)] == len(body)
+//@   requires [body_follows_its_header] hdr_crcok(ghost.rstream[ghost.bufsrc[arr(body)]], ghost.bufpos[arr(body)] - 12) &&
+//@       hdr_len(ghost.rstream[ghost.bufsrc[arr(body)]], ghost.bufpos[arr(body)] - 12) == len(body) &&
+//@       hdr_idx(ghost.rstream[ghost.bufsrc[arr(body)]], ghost.bufpos[arr(body)] - 12) == index
+
+//@ ghost toolarge int
+//@ func (*Handler).sendResponse
+//@   prop C12 C13 C09
+//@   nopanic
+//@   modifies ghost.chansent[queue], ghost.chanlen[*], ghost.chanrecv[*]
+//@   ensures [at_most_one_message] ghost.chansent[queue] <= old(ghost.chansent[queue]) + 1
+//@   ensures [message_is_the_arguments] ghost.chansent[queue] == old(ghost.chansent[queue]) + 1 ==>
+//@       lastsent(queue).Index == index && same(lastsent(queue).Body, body) && same(lastsent(queue).Error, err)
+
+// receive (server): one frame per iteration. A frame longer than the limit is
+// answered with the too-large error under its own index and never dispatched;
+// otherwise the body is read completely into a fresh buffer of exactly the
+// announced length before anything is dispatched (the dispatch preconditions
+// of run/task are obligations at the go statement / pool submission).
+//@ func (*Handler).receive
+//@   prop C12 C13 C11 C09
+//@   nopanic
+//@   havoc
+//@   modifies ghost.rpos[ival(conn)], ghost.bufsrc[*], ghost.bufpos[*], ghost.bufn[*], ghost.chansent[*], ghost.chanlen[*], ghost.chanrecv[*], ghost.spawned, ghost.dict_has[*], ghost.dict_int[*]
+//@   requires h != nil && h.Service != nil && ghost.rpos[ival(conn)] >= 0
+//@   stable h.Service, h.Service.MaxRequestLength
+//@   loop 1 invariant ghost.rpos[ival(conn)] >= 0 && ghost.chansent[queue] == old(ghost.chansent[queue])
+//@   ensures [too_large_answered_under_its_index] ghost.chansent[queue] == old(ghost.chansent[queue]) + 1 ==>
+//@       lastsent(queue).Error == core.ErrRequestEntityTooLarge && lastsent(queue).Index == index && length > h.Service.MaxRequestLength
+//@   ensures [at_most_one_refusal] ghost.chansent[queue] <= old(ghost.chansent[queue]) + 1
+
+// send (server): one response frame per iteration: header(len(body), index [| error bit]) then the body.
+//@ func (*Handler).send
+//@   prop C12 C13 C11 C09
+//@   nopanic
+//@   havoc
+//@   modifies ghost.wpos[ival(conn)], ghost.wstream[ival(conn)], ghost.chansent[*], ghost.chanlen[*], ghost.chanrecv[*]
+//@   requires h != nil && ghost.wpos[ival(conn)] >= 0
+//@   loop 1 invariant ghost.wpos[ival(conn)] >= 0
+//@   loop 1 ensures [frame_length] ghost.wpos[ival(conn)] == old(ghost.wpos[ival(conn)]) + 12 + len(body)
+//@   loop 1 ensures [header_carries_body_length] hdr_len(ghost.wstream[ival(conn)], old(ghost.wpos[ival(conn)])) == len(body) &&
+//@       ghost.wstream[ival(conn)][old(ghost.wpos[ival(conn)]) + 4] >= 128
+//@   loop 1 ensures [header_carries_index_and_no_error_bit] hdr_idx(ghost.wstream[ival(conn)], old(ghost.wpos[ival(conn)])) == response.Index &&
+//@       hdr_noerr(ghost.wstream[ival(conn)], old(ghost.wpos[ival(conn)]))
+//@   loop 1 ensures [header_checksum_valid] hdr_crcok(ghost.wstream[ival(conn)], old(ghost.wpos[ival(conn)]))
+//@   loop 1 ensures [body_is_the_response_body] same(body, response.Body) &&
+//@       forall(i, 0, len(body), ghost.wstream[ival(conn)][old(ghost.wpos[ival(conn)]) + 12 + i] == body[i])
